@@ -28,6 +28,8 @@ pub enum Op {
     ServerDrop { k: u8 },
     /// silence client k for good (it will time out on the server)
     Kill { k: u8 },
+    /// both ends of real client k's connection ask to disconnect at the same instant (the requests cross)
+    CrossDisconnect { k: u8, now_client: bool, now_server: bool },
 }
 
 #[derive(Clone, Debug, Serialize, Deserialize)]
@@ -71,6 +73,7 @@ impl Check for C17 {
             2 => (any::<u8>(), any::<bool>()).prop_map(|(k, now)| Op::ServerDisconnect { k, now }),
             1 => any::<u8>().prop_map(|k| Op::ServerDrop { k }),
             1 => any::<u8>().prop_map(|k| Op::Kill { k }),
+            2 => (any::<u8>(), any::<bool>(), any::<bool>()).prop_map(|(k, now_client, now_server)| Op::CrossDisconnect { k, now_client, now_server }),
         ];
         (any::<u64>(), 1u8..7, 1u8..9, prop_oneof![Just(2000u32), Just(5000u32), Just(20000u32)], any::<bool>(), proptest::collection::vec(op, 4..tier.pick(120, 400)), prop_oneof![1 => Just(true), 2 => Just(false)])
             .prop_map(|(seed, max_active, max_total, timeout_ms, handshake_errors, ops, check_recovery)| Case { seed, max_active, max_total, timeout_ms, handshake_errors, ops, check_recovery })
@@ -290,6 +293,28 @@ impl Check for C17 {
                         }
                     }
                 }
+                Op::CrossDisconnect { k, now_client, now_server } => {
+                    if !real.is_empty() {
+                        let ci = real[*k as usize % real.len()];
+                        let a = w.clients[ci].addr;
+                        if let Some(cl) = w.clients[ci].client.as_mut() {
+                            if *now_client {
+                                cl.disconnect_now()
+                            } else {
+                                cl.disconnect()
+                            }
+                        }
+                        if let Some(server) = w.server.as_ref() {
+                            if let Some(rc) = server.client(&a) {
+                                if *now_server {
+                                    rc.borrow_mut().disconnect_now()
+                                } else {
+                                    rc.borrow_mut().disconnect()
+                                }
+                            }
+                        }
+                    }
+                }
                 Op::ServerDisconnect { k, now } => {
                     if !all_addrs.is_empty() {
                         let a = all_addrs[*k as usize % all_addrs.len()];
@@ -329,10 +354,10 @@ impl Check for C17 {
         }
         // ---- recovery -------------------------------------------------------------------------------
         if c.check_recovery {
-            // end everything: drop the connections that were established, silence all clients; handshakes
+            // end everything: drop the connections that are still established (ended ones must leave by themselves), silence all clients; handshakes
             // that never completed must expire on their own within the 22 s budget
             for a in all_addrs.clone() {
-                if w.server_has_client(&a) && (m.connected.contains(&a) || m.ended.contains(&a)) {
+                if w.server_has_client(&a) && m.connected.contains(&a) && !m.ended.contains(&a) {
                     if let Some(server) = w.server.as_mut() {
                         server.drop(&a);
                     }
@@ -347,6 +372,21 @@ impl Check for C17 {
             for _ in 0..250 {
                 w.advance(100_000);
                 step_all!();
+            }
+            // a connection that ended (disconnect from either side or both at once, timeout, refusal, abandoned
+            // handshake) occupies its slot for at most the 20 s linger / 22 s retry budget; after 45 s of silence
+            // the server must not be tracking anything
+            for _ in 0..200 {
+                w.advance(100_000);
+                step_all!();
+            }
+            for a in all_addrs.iter() {
+                if w.server_has_client(a) {
+                    return CaseResult::fail(
+                        "oracle:c17:connection_tracked_after_it_ended",
+                        format!("45 s after every peer fell silent and every established connection was dropped, the server still tracks a connection for {a} (is_active = {}); its slot is never returned", w.server_client_active(a)),
+                    );
+                }
             }
             let link = LinkState::default();
             let ci = w.add_client(&EpCfg { active_timeout_ms: c.timeout_ms, keepalive_interval_ms: 1000, ..EpCfg::default() }, link);
